@@ -89,6 +89,7 @@ def selftest(argv):
     verify = "--verify" in argv
     tier = "quick"
     jobs = 2
+    cross = False
     names = []
     it = iter(argv)
     for a in it:
@@ -98,6 +99,8 @@ def selftest(argv):
             pass
         elif a == "--thorough":
             tier = "thorough"
+        elif a == "--cross":
+            cross = True
         else:
             names.append(a)
     muts = load_mutants()
@@ -109,6 +112,12 @@ def selftest(argv):
             for m in muts:
                 if m["name"] not in names:
                     m["properties"] = [p for p in m["properties"] if p in props]
+    if cross:
+        # every quick check against the selected (benign) changes, not only the owning property's:
+        # used to look for false alarms; an alarm here still needs triage (a change that preserves
+        # its own property may break another one)
+        for m in muts:
+            m["properties"] = ["C%02d" % i for i in range(1, 19)]
     muts = [m for m in muts if m["properties"]]
     if not muts:
         print("no mutants selected")
